@@ -355,6 +355,26 @@ def check(ctx: Ctx, col: Collector, tier: str) -> None:
             counts.add(len(aps))
         (col.ok if counts == {1} else col.bad)("C03.COVERAGE", key, repo.loc(GEN, node), f"appends per iteration for a public element: {sorted(counts)}",
                                                *([] if counts == {1} else [f"a public element of {coll} produces {sorted(counts)} entries"]))
+    # an attribute whose *type* is a type variable (`value: T` in `class Box(Generic[T])`) is a member like any other; only the
+    # definition of a type variable in a class body (`U = TypeVar("U")`: attribute U of kind TypeVarType named U) is none
+    afi3 = repo.function(GEN, f"{GENCLS}._create_class_attribute_string")
+    ait = ctx.interp(afi3)
+    ait.run_function(afi3, {"self": Sym("self"), "attributes": Sym("attributes"), "inner_indentations": Sym("ind")}, gen_state())
+    aloops = find_loops(ait, afi3, lambda v: sym_is(v, "attributes"))
+    if len(aloops) == 1:
+        node, _, _, entry = aloops[0]
+        for label, aname, tvname, want in (("typed-with-a-type-variable", "value", "T", {1}), ("type-variable-definition", "U", "U", {0, 1})):
+            el = Obj("Element", (("name", Const(aname)), ("is_public", Const(True)), ("type", Sym("X.type")), ("is_static", Const(True)), ("docstring", Sym("X.docstring"))))
+            e = entry.clone()
+            e.neq[repr(Sym("X.type"))] = {Const(None)}
+            e.eq["[](.to_dict(<X.type>), 'kind')"] = Const("TypeVarType")
+            e.eq["[](.to_dict(<X.type>), 'name')"] = Const(tvname)
+            counts = {len([x for x in new_effects(o, entry) if x.kind == "mutate" and x.target.endswith(".append")]) for o in run_body(ait, node, e, el)}
+            good = bool(counts) and counts <= want
+            (col.ok if good else col.bad)("C03.COVERAGE", f"{GEN}::{GENCLS}._create_class_attribute_string::attributes::{label}", repo.loc(GEN, node),
+                                          f"attribute {aname} of type variable {tvname}: entries per path {sorted(counts)}",
+                                          *([] if good else [f"a public attribute whose type is a type variable (`class Box(Generic[T]): value: T`, `self.first: T = value`) produces {sorted(counts)} entries: "
+                                                             f"the member vanishes from the stub (every attribute of kind TypeVarType is skipped, not only type-variable definitions)"]))
     # enum members
     efi = repo.function(GEN, f"{GENCLS}._create_enum_string")
     col.touched(efi)
